@@ -328,6 +328,9 @@ def run(prop, tier, seed, replay=None):
         except Exception:
             pass
 
+    # static ties (e.g. C18: no zone-dependent API is called) are part of the correspondence
+    static_fail = list(prop.static_checks(REPO)) if hasattr(prop, "static_checks") else []
+
     # 4. extraction cross-check on a slice
     flat = []
     for c, mo in zip(cases, model_out):
@@ -368,7 +371,7 @@ def run(prop, tier, seed, replay=None):
                    "cases": [strip_case(small)], "impl_out": small_out,
                    "n_failing": len(unexplained)}
         violations.append(("", payload))
-    elif mism or proof_broken or not vm_ok:
+    elif mism or proof_broken or not vm_ok or static_fail:
         # the property is no longer shown to hold; search for a failing input
         found = None
         if hasattr(prop, "search") and replay is None:
@@ -384,7 +387,7 @@ def run(prop, tier, seed, replay=None):
             c, o, w = found
             payload = {"property": pid, "kind": "failing-input", "why": w,
                        "cases": [strip_case(c)], "impl_out": o,
-                       "broken": broken_names(pinfo, forbidden, mism, vm_ok)}
+                       "broken": broken_names(pinfo, forbidden, mism, vm_ok, static_fail)}
             violations.append(("", payload))
         else:
             first = None
@@ -393,7 +396,7 @@ def run(prop, tier, seed, replay=None):
                 first = {"case": strip_case(cases[i]), "impl_out": impl_out[i],
                          "model_out": model_out[i], "why": why}
             payload = {"property": pid, "kind": "no-failing-input-found",
-                       "broken": broken_names(pinfo, forbidden, mism, vm_ok),
+                       "broken": broken_names(pinfo, forbidden, mism, vm_ok, static_fail),
                        "first_disagreement": first, "n_disagreements": len(mism),
                        "cases": [strip_case(cases[i]) for i, _ in mism[:5]],
                        "coq_log": pinfo["log"] if not pinfo["ok"] else "",
@@ -420,6 +423,7 @@ def run(prop, tier, seed, replay=None):
             "case_kinds": kinds,
             "corpus_cases": corpus_n,
             "tie_mismatches": len(mism),
+            "static_tie_failures": static_fail,
             "ambiguous": ambiguous,
             "oracle_failures": len(oracle_fail),
             "extraction_crosschecked": vm_n,
@@ -452,7 +456,7 @@ def run(prop, tier, seed, replay=None):
     return 0
 
 
-def broken_names(pinfo, forbidden, mism, vm_ok):
+def broken_names(pinfo, forbidden, mism, vm_ok, static_fail):
     b = []
     if not pinfo["ok"]:
         b.append("proof: coq/Props file does not check (rc=%s, closed=%d of %d, axioms=%s, unprinted=%s)" % (
@@ -464,6 +468,8 @@ def broken_names(pinfo, forbidden, mism, vm_ok):
             len(mism), mism[0][1]))
     if not vm_ok:
         b.append("extraction cross-check (vm_compute vs OCaml) failed")
+    for m in static_fail:
+        b.append("static tie: " + m)
     return b
 
 
